@@ -36,7 +36,7 @@ def need(m, what):
 
 
 def func_body(src, name, fname):
-    m = re.search(r"\n" + re.escape(name) + r"\s*\([^)]*\)\s*(?:/\*.*?\*/\s*)*\{", src, flags=re.S)
+    m = re.search(r"[\n ]" + re.escape(name) + r"\s*\([^;{)]*\)\s*(?:/\*.*?\*/\s*)*\{", src, flags=re.S)
     need(m, "%s: function %s not found" % (fname, name))
     i = m.end()
     d = 1
@@ -181,6 +181,27 @@ if len(scales) != 1:
 maxmem_scale = int(scales.pop())
 nmaxmem = len(re.findall(r"mem->max_memory_to_use = \(long\)this->maxMemory \* \d+L;", tj + mp))
 
+# ---------------------------------------------------------------- tj3Init handlers (finding F4)
+tjraw = rd("src/turbojpeg.c")
+
+
+def handler(fn):
+    b = func_body(tjraw, fn, "turbojpeg.c")
+    m = need(re.search(r"if \(setjmp\(this->jerr\.setjmp_buffer\)\) \{(.*?)return NULL; \}", b),
+             "turbojpeg.c: %s: setjmp handler '{ ...; return NULL; }' not found" % fn)
+    h = m.group(1)
+    need("free(this);" in h or "tj3Destroy(" in h, "turbojpeg.c: %s: handler neither frees nor destroys the instance" % fn)
+    return h
+
+
+hc = handler("_tjInitCompress")
+hdn = handler("_tjInitDecompress")
+need(re.search(r"case TJINIT_TRANSFORM: retval = _tjInitCompress\(this\); if \(!retval\) return NULL; retval = _tjInitDecompress\(this\); return retval;",
+               func_body(tjraw, "tj3Init", "turbojpeg.c")), "turbojpeg.c: tj3Init: TJINIT_TRANSFORM no longer initialises compress then decompress")
+c_destroys = ("jpeg_destroy_compress(" in hc) or ("tj3Destroy(" in hc)
+d_destroys = (("jpeg_destroy_decompress(" in hdn) and ("jpeg_destroy_compress(" in hdn)) or ("tj3Destroy(" in hdn)
+handler_destroys = c_destroys and d_destroys
+
 P("(* GENERATED by tools/gen_MemConst.py from src/jmemsys.h, jmemmgr.c, jmemnobs.c, jpeglib.h, turbojpeg.c,")
 P("   turbojpeg-mp.c, rdbmp.c, rdppm.c -- do not edit *)")
 P("From Coq Require Import ZArith.\nLocal Open Scope Z_scope.\n")
@@ -202,4 +223,8 @@ P("Definition limit_sites : Z := %d." % len(sites))
 P("Definition scan_limit_strict : bool := %s." % ("true" if scan_strict else "false"))
 P("Definition maxmem_scale : Z := %d." % maxmem_scale)
 P("Definition maxmem_sites : Z := %d." % nmaxmem)
+P("(* tj3Init: do the setjmp handlers of _tjInitCompress/_tjInitDecompress destroy the libjpeg object(s) before free(this)? *)")
+P("(* _tjInitCompress handler: %s *)" % hc.strip().replace("(*", "( *").replace("*)", "* )"))
+P("(* _tjInitDecompress handler: %s *)" % hdn.strip().replace("(*", "( *").replace("*)", "* )"))
+P("Definition tjinit_handler_destroys : bool := %s." % ("true" if handler_destroys else "false"))
 print("\n".join(out))
